@@ -343,7 +343,10 @@ impl TransactionWorkspace {
     }
 
     pub fn is_active(&self) -> bool {
-        *self.state.read() == TransactionState::Active
+        let active = *self.state.read() == TransactionState::Active;
+        #[cfg(neumann_verif)]
+        tensor_store::verif_hook::point("chain.workspace.is_active");
+        active
     }
 
     /// Add an operation to this transaction.
